@@ -12,7 +12,7 @@ import (
 
 func chunkSize(kind string) int {
 	switch {
-	case kind == "graphexh":
+	case kind == "graphexh" || kind == "graphexh5":
 		return 1
 	case kind == "graphsamp":
 		return 25
